@@ -1,0 +1,11 @@
+//go:build verif
+
+package gossipval
+
+// Contracts for govc (see /verif/DESIGN.md). Comment-only: no declarations.
+
+//@ func CheckSlotSpan(slotAfter, slot, span) err
+//@   property C19
+//@   opt pure_func=slotAfter
+//@   ensures nowrap: slot + span >= 18446744073709551616 ==> err != nil
+//@   ensures window: slot + span < 18446744073709551616 ==> (err == nil <==> (slot + span >= slotAfter(-MAXIMUM_GOSSIP_CLOCK_DISPARITY) && slot <= slotAfter(MAXIMUM_GOSSIP_CLOCK_DISPARITY)))
